@@ -12,6 +12,8 @@ import OdcGeo.Props.C11
 import OdcGeo.Props.C11Glue
 import Mathlib.Tactic.Linarith
 import Mathlib.Tactic.NormNum
+import Mathlib.Algebra.Order.Field.Rat
+import Mathlib.Algebra.Order.AbsoluteValue.Basic
 
 namespace OdcGeo.C09
 open OdcGeo
@@ -426,6 +428,194 @@ theorem xr_reproject_crs_history (g0 : GeoBox) (nt nb : Option Nat) (cn : String
       (fun _ => ⟨q3, q4, fun _ => ⟨q1, q2⟩⟩) h
     exact ⟨g, sc', dst', hr, e1, e2, e3, e4, e5⟩
 
+/-! ### rotated / sheared sources: no side condition left -/
+
+theorem rabs_eq_abs (x : Rat) : rabs x = |x| := by
+  unfold rabs
+  split
+  · rw [abs_of_neg (by assumption)]
+  · rw [abs_of_nonneg (by linarith)]
+
+/-- multiplying by a non-zero integer never brings a number closer to zero -/
+theorem rabs_le_mul_int (x : Rat) (k : Int) (hk : k ≠ 0) : rabs x ≤ rabs (x * (k : Rat)) := by
+  rw [rabs_eq_abs, rabs_eq_abs, abs_mul]
+  have h1 : (1 : Rat) ≤ |(k : Rat)| := by
+    rw [← Int.cast_abs]
+    exact_mod_cast Int.one_le_abs hk
+  nlinarith [abs_nonneg x]
+
+/-- a successful slice never has step 0, so the stride of an index map never becomes 0 -/
+theorem stride_step (yd xd : String) (m : AxMap × AxMap) (a a' : XArr) (op : Op) (h : applyOp a op = .ok a')
+    (h1 : m.1.stride ≠ 0) (h2 : m.2.stride ≠ 0) :
+    (trackOp yd xd m op).1.stride ≠ 0 ∧ (trackOp yd xd m op).2.stride ≠ 0 := by
+  cases op with
+  | arith => exact ⟨h1, h2⟩
+  | astype => exact ⟨h1, h2⟩
+  | pickle => exact ⟨h1, h2⟩
+  | isel d ix =>
+    cases ix with
+    | int i => exact ⟨h1, h2⟩
+    | slc s e st =>
+      have hst : st.getD 1 ≠ 0 := by
+        intro h0
+        simp only [applyOp] at h
+        split at h
+        · cases h
+        · split at h
+          · cases h
+          · simp at h
+      simp only [trackOp]
+      split
+      · exact ⟨by simp only [AxMap.slice]; exact Int.mul_ne_zero h1 hst, h2⟩
+      · split
+        · exact ⟨h1, by simp only [AxMap.slice]; exact Int.mul_ne_zero h2 hst⟩
+        · exact ⟨h1, h2⟩
+
+theorem stride_ops (yd xd : String) (ops : List Op) :
+    ∀ (m : AxMap × AxMap) (a a' : XArr), applyOps a ops = .ok a' → m.1.stride ≠ 0 → m.2.stride ≠ 0 →
+      (track yd xd m ops).1.stride ≠ 0 ∧ (track yd xd m ops).2.stride ≠ 0 := by
+  induction ops with
+  | nil => intro m a a' _ h1 h2; exact ⟨h1, h2⟩
+  | cons op rest ih =>
+    intro m a a' h h1 h2
+    simp only [applyOps] at h
+    split at h
+    · cases h
+    · rename_i a1 hop
+      obtain ⟨s1, s2⟩ := stride_step yd xd m a a1 op hop h1 h2
+      simp only [track, List.foldl_cons]
+      exact ih _ a1 a' h s1 s2
+
+theorem dataResOff_err (d : List Rat) (f : Option Rat) (e : ErrKind) (h : dataResOff d f = .error e) : e = .valueError := by
+  unfold dataResOff at h
+  split at h
+  · cases h; rfl
+  · split at h
+    · cases h; rfl
+    · cases h
+  · cases h
+
+theorem affineFromAxis_empty (xs ys : List Rat) (fb : Option (Rat × Rat)) (h : xs = [] ∨ ys = []) :
+    affineFromAxis xs ys fb = .error .valueError := by
+  unfold affineFromAxis
+  simp only [bind, Except.bind]
+  cases hx : dataResOff xs (fb.map (·.1)) with
+  | error e => rw [dataResOff_err _ _ _ hx]
+  | ok px =>
+    simp only
+    cases hy : dataResOff ys (fb.map (·.2)) with
+    | error e => rw [dataResOff_err _ _ _ hy]
+    | ok py =>
+      exfalso
+      rcases h with rfl | rfl
+      · simp [dataResOff] at hx
+      · simp [dataResOff] at hy
+
+/-- pixel-space labels with an empty axis: no transform -/
+theorem extractTransform_empty (xs ys : List Rat) (A : Aff) (cc : Option CrsCoord) (h : xs = [] ∨ ys = []) :
+    extractTransform xs ys (some A) cc false = .ok none := by
+  simp [extractTransform, affineFromAxis_empty xs ys _ h, fallbackRes]
+
+/-- the box recovered after any history from a rotated / sheared source is itself not axis-aligned: its
+off-diagonal terms are those of the original times non-zero integers (strides) -/
+theorem recovered_rotated_not_st (g0 : GeoBox) (my mx : AxMap) (hrot : isAffineST g0.A = false)
+    (hsy : my.stride ≠ 0) (hsx : mx.stride ≠ 0) :
+    isAffineST (composeP2W (xfOf g0) (labelAff g0 my mx)) = false := by
+  have hx : xfOf g0 = some g0.A := by simp [xfOf, hrot]
+  have hbx : baseX g0 = (1 / 2, 1) := by simp [baseX, hrot]
+  have hby : baseY g0 = (1 / 2, 1) := by simp [baseY, hrot]
+  -- the two resolutions read from the labels are non-zero integers
+  have hrx : ∃ k : Int, k ≠ 0 ∧ resOf mx.len ((mx.stride : Rat) * 1) 1 = (k : Rat) := by
+    unfold resOf
+    split
+    · exact ⟨mx.stride, hsx, by simp⟩
+    · exact ⟨1, by decide, by simp⟩
+  have hry : ∃ k : Int, k ≠ 0 ∧ resOf my.len ((my.stride : Rat) * 1) 1 = (k : Rat) := by
+    unfold resOf
+    split
+    · exact ⟨my.stride, hsy, by simp⟩
+    · exact ⟨1, by decide, by simp⟩
+  obtain ⟨kx, hkx, ekx⟩ := hrx
+  obtain ⟨ky, hky, eky⟩ := hry
+  simp only [hx, composeP2W, labelAff, hbx, hby, ekx, eky, Aff.mul_def, Aff.mul, Aff.translation, Aff.scale]
+  simp only [isAffineST, mul_zero, zero_mul, add_zero, zero_add, one_mul] at hrot ⊢
+  have h1 := rabs_le_mul_int g0.A.b ky hky
+  have h2 := rabs_le_mul_int g0.A.d kx hkx
+  by_contra hc
+  simp only [Bool.not_eq_false, Bool.and_eq_true, decide_eq_true_eq] at hc
+  have : (decide (rabs g0.A.b < tolST) && decide (rabs g0.A.d < tolST)) = true := by
+    simp only [Bool.and_eq_true, decide_eq_true_eq]
+    exact ⟨lt_of_le_of_lt h1 hc.1, lt_of_le_of_lt h2 hc.2⟩
+  rw [this] at hrot
+  cases hrot
+
+/-- **xr_reproject_crs_history_any** — `xr_reproject_crs_history` for **every** linear source: axis-aligned (any signs)
+or rotated / sheared (outside the 1e-10 tolerance band of `is_affine_st`, the same condition as `survives`), any
+shape, rank, CRS-coordinate name and finite history of admissible operations.  No hypothesis about the
+intermediate array or the recovered source box is left: the GeoBox recovered from the output of
+`xr_reproject(arr, <CRS>, **options)` is the grid `compute_output_geobox` gives for the GeoBox recovered from `arr`. -/
+theorem xr_reproject_crs_history_any (g0 : GeoBox) (nt nb : Option Nat) (cn : String) (attrs : List String)
+    (ops : List Op) (a0 arr : XArr) (c : Crs) (p : Proj) (a : C11.GridArgs) (extra : List (String × KwVal))
+    (nd : Bool) (out : XArr) (hcn : NameOk cn) (halign : isAffineST g0.A = true → g0.A.b = 0 ∧ g0.A.d = 0)
+    (hw : wrap (.lin g0) nt nb cn attrs = .ok a0) (hadm : ∀ op ∈ ops, op.admissible)
+    (hops : applyOps a0 ops = .ok arr) (hextra : ∀ kv ∈ extra, kv.1 ∉ gboxKeys)
+    (h : xrReprojectDa arr (.crs c p) a extra nd = .ok out) :
+    ∃ g sc dst, recover arr = .ok (.lin g) ∧ g.crs = some sc ∧ outputGeoboxOf (.lin g) sc c p a = .ok dst ∧
+      recover out = .ok (.lin dst) ∧ dst.crs = some c ∧ (∀ k ∈ out.attrs, k ∉ spatialAttributes) := by
+  by_cases hst : isAffineST g0.A = true
+  · obtain ⟨hb, hd⟩ := halign hst
+    exact xr_reproject_crs_history g0 nt nb cn attrs ops a0 arr c p a extra nd out hcn hb hd hw hadm hops hextra h
+  · have hrot : isAffineST g0.A = false := by simpa using hst
+    obtain ⟨r, sc, dst, hr, hsc, _, _⟩ := xrReprojectDa_ok arr c p a extra nd out hextra h
+    have hI0 := inv_wrap g0 nt nb cn attrs a0 hcn hw
+    have hI := inv_ops g0 cn hcn ops (AxMap.ident g0.ny, AxMap.ident g0.nx) a0 arr hI0 hadm hops
+    obtain ⟨pre0, post0, hs0⟩ := dimsShape_wrap g0 nt nb cn attrs a0 hw
+    have key : ∀ (ops : List Op) (a0 a : XArr) (pre post : List String), DimsShape a0 g0.crs pre post →
+        (∀ op ∈ ops, op.admissible) → applyOps a0 ops = .ok a → ∃ pre' post', DimsShape a g0.crs pre' post' := by
+      intro ops
+      induction ops with
+      | nil =>
+        intro a0 a pre post hs _ h
+        simp only [applyOps, Except.ok.injEq] at h
+        subst h
+        exact ⟨pre, post, hs⟩
+      | cons op rest ih =>
+        intro a0 a pre post hs hadm h
+        simp only [applyOps] at h
+        split at h
+        · cases h
+        · rename_i a1 h1
+          obtain ⟨p1, q1, hs1⟩ := dimsShape_step a0 a1 g0.crs pre post op hs (hadm op List.mem_cons_self) h1
+          exact ih a1 a p1 q1 hs1 (fun o ho => hadm o (List.mem_cons_of_mem _ ho)) h
+    obtain ⟨pre, post, hs⟩ := key ops a0 arr pre0 post0 hs0 hadm hops
+    set m := track (dimsOf g0.crs).1 (dimsOf g0.crs).2 (AxMap.ident g0.ny, AxMap.ident g0.nx) ops with hm
+    obtain ⟨hsy, hsx⟩ := stride_ops (dimsOf g0.crs).1 (dimsOf g0.crs).2 ops (AxMap.ident g0.ny, AxMap.ident g0.nx) a0 arr hops
+      (by simp [AxMap.ident]) (by simp [AxMap.ident])
+    by_cases hlen : 1 ≤ m.1.len ∧ 1 ≤ m.2.len
+    · have hrec := inv_recover g0 cn m.1 m.2 arr hI hlen.1 hlen.2 (Or.inr (Or.inr hrot))
+      have hnst := recovered_rotated_not_st g0 m.1 m.2 hrot hsy hsx
+      obtain ⟨sc', dst', e1, e2, e3, e4, e5, _⟩ := xr_reproject_crs_geobox arr g0.crs pre post _ c p a extra nd out hs hrec hextra
+        (fun _ => ⟨hlen.1, hlen.2, fun hh => by simp only at hh; rw [hnst] at hh; cases hh⟩) h
+      exact ⟨_, sc', dst', hrec, e1, e2, e3, e4, e5⟩
+    · -- an empty axis: nothing is recovered, so the call cannot have succeeded
+      exfalso
+      have hloc := inv_locate g0 cn m.1 m.2 arr hI
+      have hx : xfOf g0 = some g0.A := by simp [xfOf, hrot]
+      have hgcp : (((ccOf g0).toList.head?).bind (·.gcps)) = none := by
+        cases hcrs : g0.crs <;> simp [ccOf, hcrs]
+      have h0 : m.1.len = 0 ∨ m.2.len = 0 := by omega
+      unfold recover at hr
+      rw [spatialDims_of_guess _ _ hI.sd] at hr
+      simp only [hI.ylk, hI.xlk, hloc, hgcp, hx, Option.isSome_none] at hr
+      have hempty : labelsFor (baseX g0).1 (baseX g0).2 m.2 = [] ∨ labelsFor (baseY g0).1 (baseY g0).2 m.1 = [] := by
+        rcases h0 with h0 | h0
+        · right; simp [labelsFor, ap, h0]
+        · left; simp [labelsFor, ap, h0]
+      rw [extractTransform_empty _ _ _ _ hempty] at hr
+      simp only [Except.ok.injEq] at hr
+      subst hr
+      simp [Recovered.crs] at hsc
+
 /-! ### a C11 theorem carried through to the reprojected object -/
 
 theorem outputGeoboxOf_cases (g : GeoBox) (sc c : Crs) (p : Proj) (a : C11.GridArgs) (dst : GeoBox)
@@ -564,6 +754,178 @@ theorem xr_reproject_ds_crs (attrs : List String) (gm : Option String) (vars : L
                 refine ⟨v, hx, Or.inr ⟨hp1, hp2, ?_⟩⟩
                 intro sc0 pre post hs
                 exact reproject_geobox v sc0 pre post dst c _ o' hs hc hny hnx halign has
+
+/-! ### the Dataset seen as one object: discharging the Dataset-level recovery hypothesis -/
+
+/-- the merge step of `dsView` -/
+def mergeStep (acc : List (String × Coord)) (kc : String × Coord) : List (String × Coord) :=
+  if (acc.map (·.1)).contains kc.1 then acc else acc ++ [kc]
+
+theorem dsView_coords_eq (attrs : List String) (vars : List (String × XArr)) :
+    (dsView attrs vars).coords = (vars.flatMap (·.2.coords)).foldl mergeStep [] := rfl
+
+/-- coordinates whose names are already present are skipped -/
+theorem merge_known (l acc : List (String × Coord)) (h : ∀ kc ∈ l, kc.1 ∈ acc.map (·.1)) :
+    l.foldl mergeStep acc = acc := by
+  induction l generalizing acc with
+  | nil => rfl
+  | cons x xs ih =>
+    have hx : x.1 ∈ acc.map (·.1) := h x List.mem_cons_self
+    have : mergeStep acc x = acc := by
+      unfold mergeStep
+      simp only [List.contains_iff_mem, hx, if_true]
+    rw [List.foldl_cons, this]
+    exact ih acc (fun kc hkc => h kc (List.mem_cons_of_mem _ hkc))
+
+/-- coordinates with fresh, pairwise different names are appended in order -/
+theorem merge_fresh (l acc : List (String × Coord)) (h : (acc.map (·.1) ++ l.map (·.1)).Nodup) :
+    l.foldl mergeStep acc = acc ++ l := by
+  induction l generalizing acc with
+  | nil => simp
+  | cons x xs ih =>
+    have hx : x.1 ∉ acc.map (·.1) := by
+      intro hm
+      have := List.nodup_append.mp h
+      exact this.2.2 _ hm _ (by simp) rfl
+    have hstep : mergeStep acc x = acc ++ [x] := by
+      unfold mergeStep
+      simp only [List.contains_iff_mem, hx, if_false]
+    rw [List.foldl_cons, hstep, ih (acc ++ [x]) (by simpa [List.append_assoc] using h)]
+    simp
+
+/-- a Dataset whose variables all carry the coordinates of one array has exactly those coordinates -/
+theorem dsView_coords_shared (attrs : List String) (a : XArr) (vars : List (String × XArr)) (hne : vars ≠ [])
+    (hall : ∀ v ∈ vars, v.2.dims = a.dims ∧ v.2.coords = a.coords) (hnd : (a.coords.map (·.1)).Nodup) :
+    (dsView attrs vars).coords = a.coords := by
+  rw [dsView_coords_eq]
+  cases vars with
+  | nil => exact absurd rfl hne
+  | cons v vs =>
+    have hv := (hall v List.mem_cons_self).2
+    simp only [List.flatMap_cons, List.foldl_append, hv]
+    rw [merge_fresh a.coords [] (by simpa using hnd)]
+    simp only [List.nil_append]
+    apply merge_known
+    intro kc hkc
+    simp only [List.mem_flatMap] at hkc
+    obtain ⟨w, hw, hkw⟩ := hkc
+    rw [(hall w (List.mem_cons_of_mem _ hw)).2] at hkw
+    exact List.mem_map_of_mem hkw
+
+theorem guessDims_congr (l l' : List String) (h : ∀ x, x ∈ l ↔ x ∈ l') : guessDims l = guessDims l' := by
+  have hc : ∀ x, l.contains x = l'.contains x := by
+    intro x
+    by_cases hx : x ∈ l
+    · simp [hx, (h x).mp hx]
+    · have : x ∉ l' := fun h' => hx ((h x).mpr h')
+      simp [hx, this]
+  simp only [guessDims, hc]
+
+/-- **ds_view_recover** — the geobox of a Dataset as a whole (`ds.odc.geobox`, from which `xr_reproject(ds, <CRS>)`
+computes the destination) is the geobox of its variables: when every data variable carries the dims and
+coordinates of one array `a` (as in `Dataset({"a": arr, "b": arr * 2})`; `a` has named spatial dims and distinct
+coordinate names), `_locate_geo_info(ds)` recovers exactly what it recovers from `a` under the Dataset's own
+`grid_mapping` (encoding / attrs, if any). -/
+theorem ds_view_recover (attrs : List String) (gm : Option String) (a : XArr) (vars : List (String × XArr))
+    (p : String × String) (hne : vars ≠ []) (hall : ∀ v ∈ vars, v.2.dims = a.dims ∧ v.2.coords = a.coords)
+    (hnd : (a.coords.map (·.1)).Nodup) (hg : guessDims a.dims = some p) :
+    recover (dsSrcView attrs gm vars) = recover { a with gridMapping := gm } := by
+  have hc : (dsSrcView attrs gm vars).coords = a.coords := dsView_coords_shared attrs a vars hne hall hnd
+  have hmem : ∀ x, x ∈ (dsSrcView attrs gm vars).dims ↔ x ∈ a.dims := by
+    intro x
+    show x ∈ (vars.flatMap (·.2.dims)).eraseDups ↔ x ∈ a.dims
+    rw [List.mem_eraseDups, List.mem_flatMap]
+    constructor
+    · rintro ⟨v, hv, hx⟩
+      rw [(hall v hv).1] at hx
+      exact hx
+    · intro hx
+      cases vars with
+      | nil => exact absurd rfl hne
+      | cons v vs => exact ⟨v, List.mem_cons_self, by rw [(hall v List.mem_cons_self).1]; exact hx⟩
+  have hgd : guessDims (dsSrcView attrs gm vars).dims = some p := by
+    rw [guessDims_congr _ _ hmem]; exact hg
+  have hgm : (dsSrcView attrs gm vars).gridMapping = gm := rfl
+  unfold recover locateCrsCoords
+  rw [spatialDims_of_guess _ _ hgd, spatialDims_of_guess _ _ hg, hc, hgm]
+
+/-- **xr_reproject_ds_crs_shared** — `xr_reproject_ds_crs` without the Dataset-level hypothesis: for a Dataset whose
+variables share the dims and coordinates of an array `a`, the destination is computed from the GeoBox recovered
+from `a` itself. -/
+theorem xr_reproject_ds_crs_shared (attrs : List String) (gm : Option String) (a0 : XArr) (vars : List (String × XArr))
+    (pd : String × String) (g : GeoBox) (c : Crs) (p : Proj) (a : C11.GridArgs) (extra : List (String × KwVal))
+    (attrs' : List String) (out : List (String × XArr)) (hne : vars ≠ [])
+    (hall : ∀ v ∈ vars, v.2.dims = a0.dims ∧ v.2.coords = a0.coords) (hnd : (a0.coords.map (·.1)).Nodup)
+    (hgd : guessDims a0.dims = some pd) (hrec : recover { a0 with gridMapping := gm } = .ok (.lin g))
+    (hextra : ∀ kv ∈ extra, kv.1 ∉ gboxKeys)
+    (hg : g.crs = some c → 1 ≤ g.ny ∧ 1 ≤ g.nx ∧ (isAffineST g.A = true → g.A.b = 0 ∧ g.A.d = 0))
+    (h : xrReprojectDs attrs gm vars (.crs c p) a extra = .ok (attrs', out)) :
+    ∃ sc dst, g.crs = some sc ∧ outputGeoboxOf (.lin g) sc c p a = .ok dst ∧ dst.crs = some c ∧
+      (∀ k ∈ attrs', k ∉ spatialAttributes) ∧
+      ∀ nm o, (nm, o) ∈ out → ∃ v, (nm, v) ∈ vars ∧
+        ((recover v = .ok .nothing ∧ o.dims = v.dims ∧ o.attrs = v.attrs) ∨
+         ((∀ k ∈ o.attrs, k ∉ spatialAttributes) ∧ o.gridMapping = some "spatial_ref" ∧
+           (∀ sc0 pre post, DimsShape v sc0 pre post → recover o = .ok (.lin dst)))) :=
+  xr_reproject_ds_crs attrs gm vars g c p a extra attrs' out
+    (by rw [ds_view_recover attrs gm a0 vars pd hne hall hnd hgd]; exact hrec) hextra hg h
+
+/-- non-vacuity of `ds_view_recover` / `xr_reproject_ds_crs_shared`: `Dataset({"a": arr, "b": arr * 2})` of a rotated,
+sliced array — the Dataset-level geobox is the array's, on both location paths of the CRS coordinate -/
+example :
+    let arr := (wrap (.lin ⟨4, 6, ⟨3, 4, 100, 4, -3, 200⟩, some ⟨3857, false⟩⟩) (some 2) none "foo" ["keep"]).bind
+      (fun a => applyOps a [.isel "y" (.slc (some 1) none none)])
+    arr.bind (fun a => recover (dsSrcView ["title"] none [("a", a), ("b", { a with gridMapping := none })])) = arr.bind recover ∧
+    arr.bind (fun a => recover (dsSrcView [] (some "foo") [("a", a), ("b", { a with gridMapping := none })])) = arr.bind recover ∧
+    arr.bind (fun a => .ok (decide ((a.coords.map (·.1)).Nodup) && (guessDims a.dims).isSome)) = .ok true := by
+  decide +kernel
+
+/-! ### the nodata range check -/
+
+/-- **nodata_range_check** — `xr_reproject` with the range check of `_check_nodata_range`: the call succeeds exactly when
+the unchecked pipeline succeeds **and** both the effective `src_nodata` (keyword, else the `nodata` / `_FillValue`
+attribute) and the effective `dst_nodata` (argument, else `src_nodata`) lie in the value range of the pixel type;
+then the result is the same object, so every theorem about `xrReprojectDa` applies; otherwise `ValueError`, for
+numpy- and dask-backed sources alike (the check sits before the dispatch). -/
+theorem nodata_range_check (src : XArr) (how : How) (a : C11.GridArgs) (extra : List (String × KwVal)) (n : NodataVals)
+    (out : XArr) :
+    (xrReprojectDaChecked src how a extra n = .ok out ↔
+      (xrReprojectDa src how a extra n.dstKw.isSome = .ok out ∧ nodataOk n = true)) ∧
+    (nodataOk n = false → ∀ o, xrReprojectDa src how a extra n.dstKw.isSome = .ok o →
+      xrReprojectDaChecked src how a extra n = .error .valueError) := by
+  constructor
+  · unfold xrReprojectDaChecked
+    cases h : xrReprojectDa src how a extra n.dstKw.isSome with
+    | error e => simp
+    | ok o =>
+      by_cases hn : nodataOk n = true
+      · simp [hn]
+      · simp [hn]
+  · intro hn o ho
+    simp [xrReprojectDaChecked, ho, hn]
+
+/-- the defaults of the two values: a `dst_nodata` argument wins, else `src_nodata=`, else the attribute -/
+theorem nodata_defaults (s d t : Rat) (r : Option (Rat × Rat)) :
+    (NodataVals.mk (some s) (some d) (some t) r).dst = some d ∧ (NodataVals.mk (some s) none (some t) r).dst = some s ∧
+    (NodataVals.mk none none (some t) r).dst = some t ∧ (NodataVals.mk none none none r).dst = none ∧
+    (NodataVals.mk none (some d) (some t) r).src = some t := ⟨rfl, rfl, rfl, rfl, rfl⟩
+
+/-- an out-of-range value that only enters through the attribute is refused as well (uint8, `nodata=-9999`) -/
+example : nodataOk ⟨none, none, some (-9999), some (0, 255)⟩ = false ∧ nodataOk ⟨none, some 7, some 0, some (0, 255)⟩ = true ∧
+    nodataOk ⟨some 300, some 7, none, some (0, 255)⟩ = false ∧ nodataOk ⟨some 300, none, none, none⟩ = true := by
+  decide +kernel
+
+/-- non-vacuity of `xr_reproject_crs_history_any` on a rotated source: a strided, reversed slice of a 3-4-5 rotated box,
+own CRS with default options (identity path: the recovered rotated box itself is the destination and comes back) and
+with `tight=True` + centre anchor (grid recomputed) -/
+example :
+    let src := (wrap (.lin ⟨4, 6, ⟨3, 4, 100, 4, -3, 200⟩, some ⟨3857, false⟩⟩) none (some 2) "foo" []).bind
+      (fun a => applyOps a [.isel "x" (.slc none none (some (-2))), .pickle])
+    let p : Proj := ⟨true, (10, -10), ⟨90, 180, 140, 230⟩, ⟨0, 0, 1, 1⟩, (1, 1)⟩
+    src.bind (fun a => (xrReprojectDa a (.crs ⟨3857, false⟩ p) {} [] false).bind recover)
+      = src.bind recover ∧
+    src.bind (fun a => (xrReprojectDa a (.crs ⟨3857, false⟩ p) { tight := some true, anchor := some .center } [] false).bind recover)
+      = .ok (.lin ⟨5, 5, ⟨10, 0, 90, 0, -10, 230⟩, some ⟨3857, false⟩⟩) := by
+  decide +kernel
 
 /-- the source of the examples below: a mirrored, strided slice of a geographic `(time, latitude, longitude)` array
 with a custom CRS-coordinate name, after arithmetic -/
